@@ -1,9 +1,11 @@
 package keeper
 
 import (
+	"bytes"
 	"math/big"
 
 	sdk "github.com/cosmos/cosmos-sdk/types"
+	"github.com/ethereum/go-ethereum/common"
 
 	"github.com/MinterTeam/mhub2/module/x/mhub2/types"
 	"github.com/MinterTeam/mhub2/module/x/zzverif/vrt"
@@ -61,4 +63,46 @@ func ZZ_Smoke_Batch() {
 			vrt.Assert("smoke.batch.maxfee", b.Transactions[0].Fee.Amount.GTE(rest[0].Fee.Amount))
 		}
 	}
+}
+
+// ZZ_Smoke_HexOrder: the text order of two checksummed digit-only addresses is the byte order (engine self-test).
+func ZZ_Smoke_HexOrder() {
+	a, b := vrt.Bytes("a", 20), vrt.Bytes("b", 20)
+	for _, x := range a {
+		vrt.Assume(x>>4 <= 9 && x&15 <= 9)
+	}
+	for _, x := range b {
+		vrt.Assume(x>>4 <= 9 && x&15 <= 9)
+	}
+	ha, hb := common.BytesToAddress(a).Hex(), common.BytesToAddress(b).Hex()
+	vrt.Reach("smoke.hexorder")
+	vrt.Assert("smoke.hexorder.text-is-byte-order", (ha < hb) == (bytes.Compare(a, b) < 0))
+	c1 := bytes.Compare([]byte(ha), []byte(hb))
+	vrt.Assert("smoke.hexorder.compare-vs-text", (c1 == -1) == (ha < hb))
+	vrt.Assert("smoke.hexorder.compare-vs-bytes", (c1 < 0) == (bytes.Compare(a, b) < 0))
+	vrt.Assert("smoke.hexorder.less-than", types.EthereumAddrLessThan(ha, hb) == (bytes.Compare(a, b) < 0))
+}
+
+func ZZ_Smoke_BytesCompare() {
+	a, b := vrt.Bytes("a", 2), vrt.Bytes("b", 2)
+	want := a[0] < b[0] || (a[0] == b[0] && a[1] < b[1])
+	vrt.Reach("smoke.bytescompare")
+	vrt.Assert("smoke.bytescompare.minus-one", (bytes.Compare(a, b) == -1) == want)
+	vrt.Assert("smoke.bytescompare.negative", (bytes.Compare(a, b) < 0) == want)
+	sa, sb := string(a), string(b)
+	vrt.Assert("smoke.bytescompare.string-roundtrip", (bytes.Compare([]byte(sa)[:], []byte(sb)[:]) == -1) == want)
+}
+
+func ZZ_Smoke_HexBytes() {
+	a := vrt.Bytes("a", 20)
+	for _, x := range a {
+		vrt.Assume(x>>4 <= 9 && x&15 <= 9)
+	}
+	ha := common.BytesToAddress(a).Hex()
+	bs := []byte(ha)
+	vrt.Reach("smoke.hexbytes")
+	vrt.Assert("smoke.hexbytes.len", len(bs) == 42)
+	vrt.Assert("smoke.hexbytes.prefix", bs[0] == '0' && bs[1] == 'x')
+	vrt.Assert("smoke.hexbytes.first", bs[2] == '0'+a[0]>>4 && bs[3] == '0'+a[0]&15)
+	vrt.Assert("smoke.hexbytes.last", bs[40] == '0'+a[19]>>4 && bs[41] == '0'+a[19]&15)
 }
